@@ -194,6 +194,42 @@ theorem mul_scalar_scalar_sem_partial (a b : Fld K) (hab : (a.size1 && b.size1) 
 
 end mul
 
+/-! ### position independence -/
+section translate
+variable {K : Type} [Mul K]
+
+/-- **the product does not depend on the absolute position**: moving both operands by the same (d0, d1) — of any size,
+1 or 10⁵ or 2⁴⁰ pixels — moves the product by (d0, d1) and changes nothing else; in particular two one-element fields
+multiply iff their offsets are *exactly* equal, at every distance from the origin (a tolerance-based offset comparison
+violates this), and the product is empty before iff it is empty after -/
+theorem mul_translate (a b : Fld K) (d0 d1 : Int) :
+    (a.translate d0 d1).mul (b.translate d0 d1) = (a.mul b).map fun p => p.translate d0 d1 := by
+  unfold Fld.mul
+  have h1 : (a.translate d0 d1).size1 = a.size1 := rfl
+  have h2 : (b.translate d0 d1).size1 = b.size1 := rfl
+  have e0 : decide ((a.translate d0 d1).o0 = (b.translate d0 d1).o0) = decide (a.o0 = b.o0) := by
+    show decide (a.o0 + d0 = b.o0 + d0) = decide (a.o0 = b.o0)
+    rw [Bool.eq_iff_iff]; simp only [decide_eq_true_eq]; omega
+  have e1 : decide ((a.translate d0 d1).o1 = (b.translate d0 d1).o1) = decide (a.o1 = b.o1) := by
+    show decide (a.o1 + d1 = b.o1 + d1) = decide (a.o1 = b.o1)
+    rw [Bool.eq_iff_iff]; simp only [decide_eq_true_eq]; omega
+  simp only [h1, h2, e0, e1]
+  cases ha : a.size1 <;> cases hb : b.size1
+  · simp only [Bool.false_eq_true, Bool.and_false, if_false]; exact mulArr_translate a b d0 d1
+  · simp only [Bool.false_eq_true, Bool.and_true, if_false, if_true]
+    exact mulArr_translate a (b.broadcastTo a) d0 d1
+  · simp only [Bool.false_eq_true, Bool.and_false, if_false, if_true]
+    exact mulArr_translate (a.broadcastTo b) b d0 d1
+  · simp only [Bool.and_self, if_true]
+    split <;> rfl
+
+/-- two one-element fields 10⁵ pixels out, one pixel apart: empty product; at equal offsets: the product of the values -/
+example : ((⟨⟨1, 1, fun _ _ => (3 : Int)⟩, 100000, 100000⟩ : Fld Int).mul ⟨⟨1, 1, fun _ _ => 5⟩, 100000, 100001⟩).isNone = true ∧
+    ((⟨⟨1, 1, fun _ _ => (3 : Int)⟩, 100000, 100000⟩ : Fld Int).mul ⟨⟨1, 1, fun _ _ => 5⟩, 100000, 100000⟩).map
+      (fun p => (p.extent, p.emb 100000 100000)) = some (⟨100000, 100000, 100000, 100000⟩, 15) := by decide
+
+end translate
+
 /-! ## Merging -/
 
 /-- **a merge is the sum of the embeddings**, for any number of fields of any shapes and offsets — also wholly
@@ -292,6 +328,16 @@ theorem reduce_fixed_point_disjoint (gs : List (Group K)) (h : firstPair gs = no
     (m k : Nat) (hmk : m < k) (hk : k < gs.length) :
     intersect (gs[m]'(by omega)).extent gs[k].extent = false :=
   firstPair_none gs h m k hmk hk
+
+/-- the fixed point of `_disjoint` is characterised exactly, for **any number of groups**: nothing is found iff no two cached
+extents intersect — with the inclusive test, so groups sharing a single pixel row or column are still merged -/
+theorem reduce_fixed_point_iff (gs : List (Group K)) :
+    firstPair gs = none ↔
+      ∀ (m k : Nat) (_ : m < k) (hk : k < gs.length), intersect (gs[m]'(by omega)).extent gs[k].extent = false :=
+  firstPair_none_iff gs
+/-- extents that share exactly one pixel row (row 2) intersect; abutting ones (rows 0..2 and 3..5) do not -/
+example : intersect ⟨0, 2, 0, 2⟩ ⟨2, 4, 0, 2⟩ = true ∧ intersect ⟨0, 2, 0, 2⟩ ⟨3, 5, 0, 2⟩ = false ∧
+    intersect ⟨0, 2, 0, 2⟩ ⟨2, 4, 2, 4⟩ = true := by decide
 
 /-- the group invariant (`Group.wf`: member fields of positive shape; a singleton group caches its field's extent; a
 group of ≥ 2 fields caches `boundary` of its members) holds initially and is preserved by every step of `_disjoint` -/
